@@ -344,6 +344,26 @@ class Topo:
         if m.kind == "sink":
             m.destroyed_sink = True
 
+    def do_destroy_some(self, pick, sel):
+        """destroy(streams=<a selection of the node's upstreams, possibly empty>)"""
+        cands = sorted(i for i in self.real if self.model[i].kind != "sink")
+        if not cands:
+            return
+        n = cands[pick % len(cands)]
+        ps = list(self.model[n].parents)
+        chosen = [p for k, p in enumerate(ps) if k < len(sel) and sel[k]]
+        self.trace[-1] = ["destroy_some_ids", n, chosen]
+        self.do_destroy_some_ids(n, chosen)
+
+    def do_destroy_some_ids(self, n, chosen):
+        if n not in self.real or self.model[n].kind == "sink":
+            return
+        chosen = [p for p in chosen if p in self.real and p in self.model[n].parents]
+        self._note_edit(n)
+        self.real[n].destroy(streams=[self.real[p] for p in chosen])
+        for p in chosen:
+            self._m_remove_edge(p, n)
+
     def do_drop(self, pick):
         cands = sorted(i for i in self.real if self.model[i].kind != "entry")
         if not cands:
@@ -529,6 +549,11 @@ def make_machine(tier="quick"):
         @rule(pick=st.integers(0, 20))
         def destroy(self, pick):
             self.t.step("destroy", pick)
+
+        @precondition(lambda self: self.alive())
+        @rule(pick=st.integers(0, 20), sel=st.lists(st.booleans(), max_size=3))
+        def destroy_some(self, pick, sel):
+            self.t.step("destroy_some", pick, sel)
 
         @precondition(lambda self: self.alive())
         @rule(pick=st.integers(0, 20))
